@@ -253,3 +253,160 @@ package binary
 //@   ensures(end) err == nil ==> rpos(sr.reader) == mapEnd(rin(sr.reader), key, value, int64(size), p0)
 //@   ensures(mono) rpos(sr.reader) >= p0
 //@   ensures(valid) validSR(sr)
+
+// ---------------------------------------------------------------------------
+// StreamWriter: byte-exact posts over the writer ghost (wout/wlen).
+
+//@ define validSW(sw) = sw != nil && wlen(sw.writer) >= 0 && wlen(sw.writer) <= 4611686018427387904
+//@ define prefixKept(sw) = forall(j, 0, old(wlen(sw.writer)), wout(sw.writer)[j] == old(wout(sw.writer))[j])
+
+//@ contract (*StreamWriter).write
+//@   inline
+
+//@ contract (*StreamWriter).writeByte
+//@   props C02
+//@   nopanic
+//@   requires validSW(sw)
+//@   let q0 = wlen(sw.writer)
+//@   modifies sw.buffer, wout(sw.writer), wlen(sw.writer)
+//@   ensures(len) err == nil ==> wlen(sw.writer) == q0 + 1
+//@   ensures(bytes) err == nil ==> wout(sw.writer)[q0] == b
+//@   ensures(prefix) prefixKept(sw)
+//@   ensures(valid) validSW(sw)
+//@   ensures(mono) wlen(sw.writer) >= q0 && wlen(sw.writer) <= q0 + 1
+
+//@ contract (*StreamWriter).WriteBool
+//@   props C02
+//@   nopanic
+//@   requires validSW(sw)
+//@   let q0 = wlen(sw.writer)
+//@   modifies sw.buffer, wout(sw.writer), wlen(sw.writer)
+//@   ensures(len) err == nil ==> wlen(sw.writer) == q0 + 1
+//@   ensures(bytes) err == nil ==> (b ==> wout(sw.writer)[q0] == 1) && (!b ==> wout(sw.writer)[q0] == 0)
+//@   ensures(prefix) prefixKept(sw)
+//@   ensures(valid) validSW(sw)
+
+//@ contract (*StreamWriter).WriteInt8
+//@   props C02
+//@   nopanic
+//@   requires validSW(sw)
+//@   let q0 = wlen(sw.writer)
+//@   modifies sw.buffer, wout(sw.writer), wlen(sw.writer)
+//@   ensures(len) err == nil ==> wlen(sw.writer) == q0 + 1
+//@   ensures(bytes) err == nil ==> int8(wout(sw.writer)[q0]) == i
+//@   ensures(prefix) prefixKept(sw)
+//@   ensures(valid) validSW(sw)
+
+//@ contract (*StreamWriter).WriteInt16
+//@   props C02
+//@   nopanic
+//@   requires validSW(sw)
+//@   let q0 = wlen(sw.writer)
+//@   modifies sw.buffer, wout(sw.writer), wlen(sw.writer)
+//@   ensures(len) err == nil ==> wlen(sw.writer) == q0 + 2
+//@   ensures(bytes) err == nil ==> int16(be16at(wout(sw.writer), q0)) == i
+//@   ensures(prefix) prefixKept(sw)
+//@   ensures(valid) validSW(sw)
+//@   ensures(mono) wlen(sw.writer) >= q0 && wlen(sw.writer) <= q0 + 2
+
+//@ contract (*StreamWriter).WriteInt32
+//@   props C02
+//@   nopanic
+//@   requires validSW(sw)
+//@   let q0 = wlen(sw.writer)
+//@   modifies sw.buffer, wout(sw.writer), wlen(sw.writer)
+//@   ensures(len) err == nil ==> wlen(sw.writer) == q0 + 4
+//@   ensures(bytes) err == nil ==> int32(be32at(wout(sw.writer), q0)) == i
+//@   ensures(prefix) prefixKept(sw)
+//@   ensures(valid) validSW(sw)
+//@   ensures(mono) wlen(sw.writer) >= q0 && wlen(sw.writer) <= q0 + 4
+
+//@ contract (*StreamWriter).WriteInt64
+//@   props C02
+//@   nopanic
+//@   requires validSW(sw)
+//@   let q0 = wlen(sw.writer)
+//@   modifies sw.buffer, wout(sw.writer), wlen(sw.writer)
+//@   ensures(len) err == nil ==> wlen(sw.writer) == q0 + 8
+//@   ensures(bytes) err == nil ==> int64(be64at(wout(sw.writer), q0)) == i
+//@   ensures(prefix) prefixKept(sw)
+//@   ensures(valid) validSW(sw)
+//@   ensures(mono) wlen(sw.writer) >= q0 && wlen(sw.writer) <= q0 + 8
+
+//@ contract (*StreamWriter).WriteDouble
+//@   props C02
+//@   nopanic
+//@   requires validSW(sw)
+//@   let q0 = wlen(sw.writer)
+//@   modifies sw.buffer, wout(sw.writer), wlen(sw.writer)
+//@   ensures(len) err == nil ==> wlen(sw.writer) == q0 + 8
+//@   ensures(bytes) err == nil ==> be64at(wout(sw.writer), q0) == bits(d)
+//@   ensures(prefix) prefixKept(sw)
+//@   ensures(valid) validSW(sw)
+
+//@ contract (*StreamWriter).WriteBinary
+//@   props C02
+//@   nopanic
+//@   requires validSW(sw) && len(b) <= 2147483647
+//@   let q0 = wlen(sw.writer)
+//@   modifies sw.buffer, wout(sw.writer), wlen(sw.writer)
+//@   ensures(len) err == nil ==> wlen(sw.writer) == q0 + 4 + len(b)
+//@   ensures(hdr) err == nil ==> int64(int32(be32at(wout(sw.writer), q0))) == len(b)
+//@   ensures(payload) err == nil ==> forall(k, 0, len(b), wout(sw.writer)[q0 + 4 + k] == b[k])
+//@   ensures(prefix) prefixKept(sw)
+//@   ensures(valid) validSW(sw)
+
+//@ contract (*StreamWriter).WriteFieldBegin
+//@   props C02
+//@   nopanic
+//@   requires validSW(sw)
+//@   let q0 = wlen(sw.writer)
+//@   modifies sw.buffer, wout(sw.writer), wlen(sw.writer)
+//@   ensures(len) err == nil ==> wlen(sw.writer) == q0 + 3
+//@   ensures(bytes) err == nil ==> int8(wout(sw.writer)[q0]) == f.Type && int16(be16at(wout(sw.writer), q0 + 1)) == f.ID
+//@   ensures(prefix) prefixKept(sw)
+//@   ensures(valid) validSW(sw)
+
+//@ contract (*StreamWriter).WriteStructEnd
+//@   props C02
+//@   nopanic
+//@   requires validSW(sw)
+//@   let q0 = wlen(sw.writer)
+//@   modifies sw.buffer, wout(sw.writer), wlen(sw.writer)
+//@   ensures(len) err == nil ==> wlen(sw.writer) == q0 + 1
+//@   ensures(bytes) err == nil ==> wout(sw.writer)[q0] == 0
+//@   ensures(prefix) prefixKept(sw)
+//@   ensures(valid) validSW(sw)
+
+//@ contract (*StreamWriter).WriteListBegin
+//@   props C02
+//@   nopanic
+//@   requires validSW(sw) && 0 <= l.Length && l.Length <= 2147483647
+//@   let q0 = wlen(sw.writer)
+//@   modifies sw.buffer, wout(sw.writer), wlen(sw.writer)
+//@   ensures(len) err == nil ==> wlen(sw.writer) == q0 + 5
+//@   ensures(bytes) err == nil ==> int8(wout(sw.writer)[q0]) == l.Type && int64(int32(be32at(wout(sw.writer), q0 + 1))) == l.Length
+//@   ensures(prefix) prefixKept(sw)
+//@   ensures(valid) validSW(sw)
+
+//@ contract (*StreamWriter).WriteSetBegin
+//@   props C02
+//@   nopanic
+//@   requires validSW(sw) && 0 <= s.Length && s.Length <= 2147483647
+//@   let q0 = wlen(sw.writer)
+//@   modifies sw.buffer, wout(sw.writer), wlen(sw.writer)
+//@   ensures(len) err == nil ==> wlen(sw.writer) == q0 + 5
+//@   ensures(bytes) err == nil ==> int8(wout(sw.writer)[q0]) == s.Type && int64(int32(be32at(wout(sw.writer), q0 + 1))) == s.Length
+//@   ensures(prefix) prefixKept(sw)
+//@   ensures(valid) validSW(sw)
+
+//@ contract (*StreamWriter).WriteMapBegin
+//@   props C02
+//@   nopanic
+//@   requires validSW(sw) && 0 <= m.Length && m.Length <= 2147483647
+//@   let q0 = wlen(sw.writer)
+//@   modifies sw.buffer, wout(sw.writer), wlen(sw.writer)
+//@   ensures(len) err == nil ==> wlen(sw.writer) == q0 + 6
+//@   ensures(bytes) err == nil ==> int8(wout(sw.writer)[q0]) == m.KeyType && int8(wout(sw.writer)[q0 + 1]) == m.ValueType && int64(int32(be32at(wout(sw.writer), q0 + 2))) == m.Length
+//@   ensures(prefix) prefixKept(sw)
+//@   ensures(valid) validSW(sw)
